@@ -10,7 +10,7 @@ from vf.ref.interp import Obj
 
 STRING_STYLES = ("", ":ff-tail", ":ff-only", ":mixed")
 OPERATORS = ("required-none", "fixed-string-short", "fixed-string-long", "padded-string-long", "lengthref-string-long",
-             "lengthref-array-long", "fixed-array-short", "fixed-array-long", "int-at-limit", "int-far-above", "enum-at-limit",
+             "lengthref-array-long", "fixed-array-short", "fixed-array-long", "int-at-limit", "int-far-above", "int-astronomical", "enum-at-limit",
              "array-element-at-limit", "casedata-none", "casedata-wrong-class", "casedata-for-empty-case", "casedata-namesake-class")
 
 
@@ -103,6 +103,7 @@ def sites(interp, obj, path=(), heavy=False):
             elif t.kind == "int":
                 out.append((path, "int-at-limit", ins))
                 out.append((path, "int-far-above", ins))
+                out.append((path, "int-astronomical", ins))
             elif t.kind == "enum":
                 out.append((path, "enum-at-limit", ins))
             elif t.kind == "struct" and isinstance(v, Obj):
@@ -197,6 +198,9 @@ def apply(interp, obj, site, vg=None):
         o.fields[ins.name] = numbers.LIMIT[t.wire]
     elif op == "int-far-above":
         o.fields[ins.name] = numbers.LIMIT[t.wire] * 253 + 7
+    elif op == "int-astronomical":
+        # beyond what a float (2**1024) or a quick int -> str conversion can hold
+        o.fields[ins.name] = (2 ** 64 + 1, 2 ** 1024, 10 ** 400, 10 ** 4000)[len(ins.name) % 4]
     elif op == "enum-at-limit":
         o.fields[ins.name] = numbers.LIMIT[t.wire]
     elif op == "array-element-at-limit":
